@@ -11,6 +11,7 @@ import (
 	"strings"
 
 	fpgo "github.com/TeaEntityLab/fpGo/v2"
+	"github.com/TeaEntityLab/fpGo/v2/zzverif/vsched"
 	"verifharness/lib"
 )
 
@@ -187,14 +188,11 @@ func main() {
 		maxItems, maxDepth = 5, 40
 	}
 	seen := map[string]bool{}
-	init := replay(all, nil)
-	seen[init.key] = true
-	frontier := [][]int{{}}
 	transitions, depth, maxLenSeen := 0, 0, 0
+	closedAll := true
 	var samples lib.Samples
 	samples.N = 6
 	opsUsed := map[string]int{}
-	closed := false
 	lib.WatchHangs(func(d interface{}) {
 		h, _ := d.([]int)
 		last := "?"
@@ -208,65 +206,150 @@ func main() {
 		r.Cov["samples"] = []interface{}{names(all, h)}
 		r.Finish()
 	})
-	for d := 0; d < maxDepth; d++ {
-		var next [][]int
-		for _, h := range frontier {
-			// model length of this state (to bound inserts)
-			cur := replay(all, h)
-			for oi := range all {
-				if all[oi].insert && cur.modelLn >= maxItems {
-					continue
-				}
-				nh := append(append([]int{}, h...), oi)
-				o := replay(all, nh)
-				transitions++
-				opsUsed[all[oi].name]++
-				if o.fail != "" {
-					key := fmt.Sprintf("C06|%s|%s", all[oi].name, o.clause)
-					r.Violation(key, o.fail+" ; history: "+strings.Join(names(all, nh), ","), map[string]interface{}{
-						"history": names(all, nh), "failure": o.fail,
-						"go_test": goTest(all, nh)})
-					continue
-				}
-				if !seen[o.key] {
-					seen[o.key] = true
-					next = append(next, nh)
-					if o.modelLn > maxLenSeen {
-						maxLenSeen = o.modelLn
+	for _, retain := range []int{0, 1, 2} {
+		// sync.Pool may hand back any node put earlier or a fresh one: both extreme policies are explored
+		vsched.PoolRetain = retain
+		policy := []string{"sync.Pool retains nothing", "sync.Pool retains everything (LIFO)", "sync.Pool retains everything (FIFO)"}[retain]
+		init := replay(all, nil)
+		seen[fmt.Sprint(retain)+init.key] = true
+		frontier := [][]int{{}}
+		closed := false
+		for d := 0; d < maxDepth; d++ {
+			var next [][]int
+			for _, h := range frontier {
+				// model length of this state (to bound inserts)
+				cur := replay(all, h)
+				for oi := range all {
+					if all[oi].insert && cur.modelLn >= maxItems {
+						continue
 					}
-					if len(nh) >= 4 {
-						samples.Add(names(all, nh))
+					nh := append(append([]int{}, h...), oi)
+					o := replay(all, nh)
+					transitions++
+					opsUsed[all[oi].name]++
+					if o.fail != "" {
+						key := fmt.Sprintf("C06|%s|%s", all[oi].name, o.clause)
+						r.Violation(key, o.fail+" ; history: "+strings.Join(names(all, nh), ",")+" ; "+policy, map[string]interface{}{
+							"history": names(all, nh), "failure": o.fail, "sync_pool_policy": policy,
+							"go_test": goTest(all, nh)})
+						continue
+					}
+					if !seen[fmt.Sprint(retain)+o.key] {
+						seen[fmt.Sprint(retain)+o.key] = true
+						next = append(next, nh)
+						if o.modelLn > maxLenSeen {
+							maxLenSeen = o.modelLn
+						}
+						if len(nh) >= 4 {
+							samples.Add(names(all, nh))
+						}
 					}
 				}
 			}
+			depth = d + 1
+			if os.Getenv("C06_DEBUG") != "" && len(next) > 0 {
+				o := replay(all, next[len(next)-1])
+				fmt.Println("depth", depth, "new", len(next), names(all, next[len(next)-1]), o.key)
+			}
+			frontier = next
+			if len(frontier) == 0 {
+				closed = true
+				break
+			}
 		}
-		depth = d + 1
-		if os.Getenv("C06_DEBUG") != "" && len(next) > 0 {
-			o := replay(all, next[len(next)-1])
-			fmt.Println("depth", depth, "new", len(next), names(all, next[len(next)-1]), o.key)
-		}
-		frontier = next
-		if len(frontier) == 0 {
-			closed = true
-			break
+		if !closed {
+			closedAll = false
+			r.NotExhaustive(fmt.Sprintf("depth cap %d reached with %d frontier states left (%s); every history up to that depth was covered", maxDepth, len(frontier), policy))
 		}
 	}
-	if !closed {
-		r.NotExhaustive(fmt.Sprintf("depth cap %d reached with %d frontier states left; every history up to that depth was covered", maxDepth, len(frontier)))
-	}
+	closed := closedAll
+	bursts, burstOps := burstFamily(r, all)
+	transitions += burstOps
 	r.Cov["states"] = len(seen)
 	r.Cov["transitions"] = transitions
 	r.Cov["traces_validated_against_impl"] = transitions
 	r.Cov["samples"] = samples.List
 	r.Cov["max_depth"] = depth
 	r.Cov["state_space_closed"] = closed
-	r.Cov["bound"] = fmt.Sprintf("at most %d stored items; alphabet of %d operations; BFS until no new canonical state (depth cap %d)", maxItems, len(all), maxDepth)
+	r.Cov["bound"] = fmt.Sprintf("at most %d stored items; alphabet of %d operations; BFS until no new canonical state (depth cap %d); both sync.Pool policies; burst histories Offer^n Poll^n Offer^n Poll^(n+1) and Push^n Pop^n Unshift^n Shift^(n+1) for every n up to %d", maxItems, len(all), maxDepth, bursts)
 	r.Cov["evaluations"] = transitions
 	r.Cov["distinct_nontrivial"] = len(seen)
 	r.Cov["rule"] = "a state is the canonical dump of the complete private node graph (list chain via Next and Prev, pool chain, counters) plus the model deque, values renamed by first appearance; every distinct state is counted"
 	r.Cov["ops_applied"] = opsUsed
 	r.Assume = []string{"values are opaque to the container (generic T): renaming stored values preserves futures", "sync.Pool is only a node allocator (its content never carries state)"}
 	r.Finish()
+}
+
+// burstFamily: deep back-logs (any free-list / pool size threshold below the bound is crossed):
+// fill n, drain n, fill n again, drain n+1, under both sync.Pool policies, tail- and head-wise.
+func burstFamily(r *lib.Report, all []op) (int, int) {
+	maxN := 600
+	if r.Tier == "thorough" {
+		maxN = 1500
+	}
+	opsDone := 0
+	for _, retain := range []int{0, 1, 2} {
+		vsched.PoolRetain = retain
+		for n := 1; n <= maxN; n++ {
+			for variant := 0; variant < 2; variant++ {
+				lib.Beat([]int{})
+				q := fpgo.NewLinkedListQueue[int]()
+				var m []int
+				fail := ""
+				p := lib.Catch(func() {
+					step := func(what string, got, want string) {
+						opsDone++
+						if fail == "" && got != want {
+							fail = fmt.Sprintf("%s returned %s, ideal deque gives %s", what, got, want)
+						}
+					}
+					next := 0
+					for round := 0; round < 2 && fail == ""; round++ {
+						for i := 0; i < n; i++ {
+							next++
+							if variant == 0 || round == 0 {
+								q.Offer(next)
+								m = append(m, next)
+							} else {
+								q.Unshift(next)
+								m = append([]int{next}, m...)
+							}
+							opsDone++
+						}
+						if q.Count() != len(m) {
+							fail = fmt.Sprintf("Count()=%d after filling, ideal %d", q.Count(), len(m))
+						}
+						for i := 0; i < n+round && fail == ""; i++ {
+							var v int
+							var e error
+							var want string
+							if variant == 0 || round == 1 {
+								v, e = q.Poll()
+								want = popHead(&m, fpgo.ErrQueueIsEmpty)
+							} else {
+								v, e = q.Pop()
+								if len(m) == 0 {
+									want = "err:" + fpgo.ErrStackIsEmpty.Error()
+								} else {
+									want = fmt.Sprintf("val:%d", m[len(m)-1])
+									m = m[:len(m)-1]
+								}
+							}
+							step("removal", res(v, e), want)
+						}
+					}
+				})
+				if p != "" {
+					fail = p
+				}
+				if fail != "" {
+					r.Violation("C06|burst|"+map[bool]string{true: "panic", false: "wrong-result"}[p != ""], fmt.Sprintf("burst of %d (variant %d, sync.Pool retains=%v): %s", n, variant, retain, fail),
+						map[string]interface{}{"n": n, "variant": variant, "sync_pool_policy": retain, "failure": fail})
+				}
+			}
+		}
+	}
+	return maxN, opsDone
 }
 
 func goTest(all []op, h []int) string {
